@@ -16,6 +16,7 @@ TEXT = ("Dominance and provenance rules on resolve_as and on every site that re-
         "revision r into update_object / digest_object / write_object must be edge-dominated by !r.is_deleted(), and a "
         "chosen deletion must be re-expressed through Revision::new_deleted. Does not decide propagation or "
         "convergence of independent resolutions (history properties).")
+TECHNIQUE = 'static analysis over rustc MIR: value provenance of the re-asserted object and sealing markers in resolve_as, edge dominance on deletion sentinels'
 TRUSTED = ["rustc nightly MIR", "C05/W1: leaves never contain resolution markers", "public API names resolve_as / update_object / delete_object are stable anchors"]
 
 READERS = ("read_object_at_revision", "datastorage::DataStorage::read_object")
